@@ -35,8 +35,9 @@ impl OutputFormat for IceDraw {
             return Err(anyhow::anyhow!("Only ice mode files are supported by this format."));
         }
 
-        if buf.get_height() > 200 {
-            return Err(anyhow::anyhow!("Only up do 200 lines are supported by this format."));
+        // 200 lines was the screen memory of the original viewer, the loader takes what the 16 bit y2 of the header can say
+        if buf.get_height() > u16::MAX as i32 + 1 {
+            return Err(anyhow::anyhow!("Only up to 65536 lines are supported by this format."));
         }
         let fonts = analyze_font_usage(buf);
         if fonts.len() > 1 {
